@@ -50,6 +50,10 @@ def generate(ctx):
             if v != x: lookups.append((v, "case"))
             for y in (x[:-1] + bytes([(x[-1] + 1) & 0xff]) if x else b"\x01", x + b"!", x[:-1]):
                 fy = bytes(c | 0x20 if 65 <= c <= 90 else c for c in y)
+                # names are UTF-8: a byte string that is not (a truncated or damaged multi-byte character) is compared
+                # through U+FFFD replacement by chmd.c and may then EQUAL a listed name containing U+FFFD - not an absent name
+                try: y.decode("utf-8")
+                except UnicodeDecodeError: continue
                 if y and b"\0" not in y and fy not in folded:
                     lookups.append((y, "absent"))
             # neighbours at the character level: one non-ASCII character replaced by the next code point / one in the next
